@@ -32,12 +32,14 @@ GOALS = {'quick': ['same template merged twice', 'overlapping nested key',
                    'embedded two levels deep',
                    'merge into a generated composite',
                    'composer generated again after a nested override',
-                   'flow entry merged over an existing one'],
+                   'flow entry merged over an existing one',
+                   'overridden process replaced by a later merge'],
          'thorough': ['same template merged twice', 'overlapping nested key',
                       'embedded two levels deep',
                       'merge into a generated composite',
                       'composer generated again after a nested override',
-                      'flow entry merged over an existing one']}
+                      'flow entry merged over an existing one',
+                      'overridden process replaced by a later merge']}
 STUBS = ['composer with two pure processes (symbolic constant timesteps, '
          'symbolic delta) and three flow steps (two in one layer, one '
          'dependent); recording emitter']
@@ -404,7 +406,25 @@ def part_override(ctx, cfg):
     path = [(), ('a',)][ctx.choice('path', 2)]
     conf = {'ts': 1, 'ts2': 1, 'd': 1,
             '_schema': {which: {port: {var: {'_default': nv}}}}}
-    comp = C(conf).generate(path=path)
+    if ctx.flag('replaced_later'):
+        # the override is handed to the Composite itself (merge with
+        # schema_override, absolute paths); a later merge brings a new process
+        # object under the overridden key without naming the override again:
+        # the override the composite holds for that key reaches the
+        # replacement
+        comp = C({'ts': 1, 'ts2': 1, 'd': 1}).generate(path=path)
+        ov = {which: {port: {var: {'_default': nv}}}}
+        for seg in reversed(path):
+            ov = {seg: ov}
+        comp.merge(schema_override=ov)
+        newp = P({'ts': 1, 'd': 1})
+        wires = {'p': {'s': ('s',), 't': ('t',)},
+                 'q': {'s': ('s',), 't': ('t2',)}}[which]
+        comp.merge(processes={which: newp}, topology={which: wires},
+                   path=path)
+        ctx.goal('overridden process replaced by a later merge')
+    else:
+        comp = C(conf).generate(path=path)
     e = Engine(composite=comp, display_info=False, emitter='null')
     val = get(e.state.get_value(), path)
     # p: s->s, t->t ; q: s->s, t->t2 ; defaults x=0, y=3
